@@ -84,8 +84,20 @@ fn gen_world(t: &mut Tape) -> World {
     for _ in 1..n_maps {
         specs.push(gen_map(t, &MapProfile::small(ALL_MODES, 25)));
     }
-    let texts: Vec<String> = specs.iter().map(MapSpec::render).collect();
-    let maps: Vec<Beatmap> = specs.iter().map(MapSpec::decode).collect();
+    let mut texts: Vec<String> = specs.iter().map(MapSpec::render).collect();
+    // a third of the pools contains a text whose last slider line is malformed after its first path
+    // segment (the decoder skips the line): state left behind by a failed line must not leak into
+    // later decodes of this or any other text
+    if t.chance(1, 3) {
+        let k = t.below_usize(n_maps);
+        let good = "100,100,0,2,0,B|150:100|200:150,1,80\n";
+        let bad = *t.pick(&["120,120,50,2,0,B|150:100|200:150|B|300:300|4x:1,1,80\n", "120,120,50,2,0,L|200:200|L|x:300,1,60\n", "120,120,50,2,0,P|130:140|180:90|B|7,2,90\n"]);
+        if t.coin() {
+            texts[k].push_str(good);
+        }
+        texts[k].push_str(bad);
+    }
+    let maps: Vec<Beatmap> = texts.iter().map(|x| Beatmap::from_bytes(x.as_bytes()).expect("decode")).collect();
     let dspecs: Vec<DiffSpec> = (0..3)
         .map(|_| {
             let m = mode_of(t.below(4) as u8);
@@ -318,7 +330,7 @@ pub fn property() -> Property {
         id: "C01",
         subchecks: vec![SubCheck {
             name: "history-invariant",
-            rule: "pool of 2-3 maps (map 0 always tie-heavy: >=2 distinct beat lengths with exactly equal accumulated duration, equal start times) x 3 Difficulty specs x 2 score specs x history of 6-40 ops over the public surface (decode via bytes+str, bpm x16 + fresh decode, convert by value/ref/mut, difficulty, strains, performance, gradual difficulty drain, gradual performance walk, attribute builder). Invariant: whenever an op key recurs (immediately or after ops on other maps) its canonical result is bit-identical to the first; no op modifies a map passed by reference (== against a snapshot after every op). Non-trivial: a recurrence separated by an op on another map, tie-heavy map has >=2 objects and >=2 beat lengths. The driver additionally runs the same seeded histories in two separate processes and compares digests (sub-check cross-process).",
+            rule: "pool of 2-3 maps (map 0 always tie-heavy: >=2 distinct beat lengths with exactly equal accumulated duration, equal start times) x 3 Difficulty specs x 2 score specs x history of 6-40 ops over the public surface (decode via bytes+str (a third of the pools contains a text with a malformed trailing slider line), bpm x16 + fresh decode, convert by value/ref/mut, difficulty, strains, performance, gradual difficulty drain, gradual performance walk, attribute builder). Invariant: whenever an op key recurs (immediately or after ops on other maps) its canonical result is bit-identical to the first; no op modifies a map passed by reference (== against a snapshot after every op). Non-trivial: a recurrence separated by an op on another map, tie-heavy map has >=2 objects and >=2 beat lengths. The driver additionally runs the same seeded histories in two separate processes and compares digests (sub-check cross-process).",
             quick: 8000,
             thorough: 60_000,
             tape_len: 2600,
